@@ -153,9 +153,61 @@ harness_nodec!(
     leak(w);
 });
 
+harness_nodec!(
+    /// a value that passes validation but fails *while being encoded* (record {a: long,
+    /// b: [null, long]} given without the nullable field b: validation accepts it, the encoder writes
+    /// a and then cannot find b): the failed call must leave no stale bytes behind, the next
+    /// message must be exactly header + datum.
+    writer_after_encode_error, unwind = 26, {
+    use crate::schemas::*;
+    use apache_avro::schema::Schema;
+    let schema = record("R", vec![field("a", Schema::Long), field("b", union(vec![Schema::Null, Schema::Long]))]);
+    let resolved = match ResolvedOwnedSchema::new(schema) {
+        Ok(r) => r,
+        Err(e) => { leak(e); panic!("cannot resolve the record schema") }
+    };
+    let mut buffer = Vec::with_capacity(40);
+    buffer.extend_from_slice(&HDR);
+    let mut w = GenericSingleObjectWriter { buffer, resolved };
+    let a1 = any_i8() as i64;
+    let a2 = any_i8() as i64;
+    // first call: b is missing
+    let bad = Value::Record(vec![("a".to_string(), Value::Long(a1))]);
+    let mut sink1: Sink<24> = Sink::total();
+    match w.write_value_ref(&bad, &mut sink1) {
+        Ok(_) => {
+            // (if a future version decides to write the missing nullable field as null, that is fine too)
+        }
+        Err(e) => {
+            leak(e);
+            assert!(sink1.len == 0, "a failed call delivered bytes to the sink");
+        }
+    }
+    leak(bad);
+    // second call: complete value
+    let good = Value::Record(vec![("a".to_string(), Value::Long(a2)), ("b".to_string(), Value::Union(0, Box::new(Value::Null)))]);
+    let mut sink2: Sink<24> = Sink::total();
+    match w.write_value_ref(&good, &mut sink2) {
+        Ok(cnt) => {
+            let mut want = [0u8; 10];
+            let wl = spec::enc_long(a2, &mut want);
+            assert!(sink2.len == 10 + wl + 1 && cnt == sink2.len, "second message is not header + datum (stale bytes of the failed call?)");
+            assert!(slice_eq(&sink2.data, &HDR, 10), "second message does not start with the header");
+            assert!(slice_eq(&sink2.data[10..], &want, wl) && sink2.data[10 + wl] == 0, "second message's datum differs");
+        }
+        Err(e) => {
+            leak(e);
+            assert!(false, "a later message failed although value and sink are fine (writer left in a broken state)");
+        }
+    }
+    leak(good);
+    leak(w);
+});
+
 pub const HARNESSES: &[(&str, fn())] = &[
     ("c18::header_layout", header_layout::body),
     ("c18::reader_rejects_foreign_header", reader_rejects_foreign_header::body),
     ("c18::read_header_exact", read_header_exact::body),
     ("c18::writer_buffer_reuse", writer_buffer_reuse::body),
+    ("c18::writer_after_encode_error", writer_after_encode_error::body),
 ];
